@@ -94,9 +94,9 @@ macro_rules! addr_total_ptr {
 // bound: header byte constant (0x41 / 0x5f; the low nibble only feeds parse_network, covered by the hash-only harnesses), arbitrary bytes, every length in the stated window (pointer area 0..=11 bytes: each varuint read stops after at most 10 groups); unwind 14
 // stub: <&[u8] as std::io::Read>::read_exact -> model with the same effect, EOF error built as io::Error::from(ErrorKind::UnexpectedEof) (see stubs.rs)
 addr_total_ptr!(c09_q_addr_t4_len30_32, 0x41u8, 30, 32);
-addr_total_ptr!(c09_t_addr_t4_len28_33, 0x41u8, 28, 33);
-addr_total_ptr!(c09_t_addr_t4_len34_40, 0x41u8, 34, 40);
-addr_total_ptr!(c09_t_addr_t5_len28_40, 0x5fu8, 28, 40);
+addr_total_ptr!(c09_x_addr_t4_len28_33, 0x41u8, 28, 33);
+addr_total_ptr!(c09_x_addr_t4_len34_40, 0x41u8, 34, 40);
+addr_total_ptr!(c09_x_addr_t5_len28_40, 0x5fu8, 28, 40);
 
 /// type 8: the header byte is the first byte of the CBOR item (array of k elements)
 macro_rules! addr_total_byron {
@@ -115,11 +115,11 @@ macro_rules! addr_total_byron {
 }
 // bound: Address::from_bytes, header byte constant 0x80..0x8f (CBOR array head of k elements), arbitrary bytes, every length 1..=8 (quick, 0x82) / 1..=12 (thorough); unwind 14
 addr_total_byron!(c09_q_addr_t8_82_len5_6, 0x82u8, 5, 6);
-addr_total_byron!(c09_t_addr_t8_82_len8, 0x82u8, 1, 8);
-addr_total_byron!(c09_t_addr_t8_82_len12, 0x82u8, 1, 12);
+addr_total_byron!(c09_x_addr_t8_82_len8, 0x82u8, 1, 8);
+addr_total_byron!(c09_x_addr_t8_82_len12, 0x82u8, 1, 12);
 addr_total_byron!(c09_t_addr_t8_80_len12, 0x80u8, 1, 12);
-addr_total_byron!(c09_t_addr_t8_83_len12, 0x83u8, 1, 12);
-addr_total_byron!(c09_t_addr_t8_8f_len12, 0x8fu8, 1, 12);
+addr_total_byron!(c09_x_addr_t8_83_len12, 0x83u8, 1, 12);
+addr_total_byron!(c09_x_addr_t8_8f_len12, 0x8fu8, 1, 12);
 
 /// ByronAddress::from_bytes directly: first byte constant per guarded call (array(2) / indefinite array / other), rest symbolic
 macro_rules! byron_total {
